@@ -1,10 +1,14 @@
 import OpusModel.RangeCoderCodes
 import OpusProofs.RangeCoderRoundTrip
-import OpusProps.C17
+import OpusProofs.CwrsCache
+import OpusProofs.LaplaceMain
 /-
   OpusProofs.RangeCoderCodes — C08 ∘ C17: the Laplace code and the PVQ code, run through the range
   coder, are inverted by their decoders.  C17 supplies the interval-level facts (`laplace_decode_encode`,
   `icwrs_table`, `cache_reachable_fits`), C08 the round trip of the range-coder calls.
+  The C17 facts are taken from C17's proof modules (OpusProofs/Laplace*.lean, OpusProofs/Cwrs*.lean) and
+  re-assembled here in the form `OpusProps.C17` states them (`C17.*` below), so that this file does not
+  depend on the whole of OpusProps/C17.lean (which also carries C17's unrelated CELT-header work).
 -/
 namespace Opus.RangeCoder
 open Opus
@@ -33,6 +37,51 @@ def MatchAllC : List Code → List CodeVal → Prop
   | c :: cs, v :: vs => c.Matches v ∧ MatchAllC cs vs
   | _, _ => False
 
+namespace C17
+open Opus.Cwrs (icwrs Tab)
+open OpusProofs.CwrsModel (Agree)
+
+/-- `OpusProps.C17.laplace_decode_encode` (first four clauses). -/
+theorem laplace_decode_encode (fs decay : Nat) (h : LaplaceOk fs decay = true) (value : Int) :
+    ∃ fl fh v', Laplace.encode value fs decay = .ok (fl, fh, v') ∧ fl < fh ∧ fh ≤ 32768 ∧
+      (∀ fm, fl ≤ fm → fm < fh → Laplace.decode fm fs decay = .ok (v', fl, fh)) := by
+  obtain ⟨T, hp⟩ := OpusProofs.Laplace.par_of_ok h
+  obtain ⟨fl, fh, v', h1, h2, h3, h4, _⟩ := OpusProofs.Laplace.encode_then_decode hp value
+  exact ⟨fl, fh, v', h1, h2, h3, h4⟩
+
+/-- `OpusProps.C17.icwrs_cwrsi`. -/
+theorem icwrs_cwrsi (tab : Tab) (y : List Int) (h : Agree tab y.length (sumAbs y)) (hn : 2 ≤ y.length)
+    (hk : 1 ≤ sumAbs y) :
+    ∃ i, icwrs tab y = .ok i ∧ i < V y.length (sumAbs y) ∧ cwrsi tab y.length (sumAbs y) i = .ok (y, sumSq y) := by
+  obtain ⟨hlt, hdec⟩ := OpusProofs.CwrsBij.encS_spec y
+  refine ⟨_, OpusProofs.CwrsModel.icwrs_agree h hn, hlt, ?_⟩
+  rw [OpusProofs.CwrsModel.cwrsi_agree h hn hk hlt, hdec]
+
+/-- `C17.cache_reachable_fits`. -/
+theorem cache_reachable_fits (N K b : Nat) (h : Reach N K b) : 1 ≤ K ∧ V N K < 4294967296 ∧ Agree Utab N K := by
+  obtain ⟨h1, h2, h3, _⟩ := OpusProofs.CwrsCache.reach_facts h
+  exact ⟨h1, h3, h2⟩
+
+/-- `OpusProps.C17.cwrsi_table` (first clause). -/
+theorem decodePulsesFt_table (N K b : Nat) (h : Reach N K b) : decodePulsesFt Utab N K = .ok (V N K) := by
+  obtain ⟨_, hA, _, _⟩ := OpusProofs.CwrsCache.reach_facts h
+  exact OpusProofs.CwrsModel.pvqV_agree hA (Nat.le_refl _) (Nat.le_refl _)
+
+/-- `C17.icwrs_table`. -/
+theorem icwrs_table (N K b : Nat) (y : List Int) (h : Reach N K b) (hn : 2 ≤ N) (hl : y.length = N)
+    (hs : sumAbs y = K) :
+    ∃ i, encodePulses Utab y K = .ok (i, V N K) ∧ i < V N K ∧ V N K < 4294967296 ∧
+      cwrsi Utab N K i = .ok (y, sumSq y) := by
+  obtain ⟨hk, hA, hV, _⟩ := OpusProofs.CwrsCache.reach_facts h
+  subst hl hs
+  obtain ⟨i, h1, h2, h3⟩ := icwrs_cwrsi Utab y hA hn hk
+  refine ⟨i, ?_, h2, hV, h3⟩
+  unfold encodePulses
+  rw [if_neg (by omega), h1, OpusProofs.CwrsModel.pvqV_agree hA (Nat.le_refl _) (Nat.le_refl _)]
+  rfl
+
+end C17
+
 theorem V_pos (n : Nat) : ∀ k, 1 ≤ V (n + 1) k
   | 0 => by rw [OpusProofs.CwrsU.V_zero]; exact Nat.le_refl _
   | k + 1 => by
@@ -54,7 +103,7 @@ theorem laplace_code (value : Int) (fs decay : Nat) (h : LaplaceOk fs decay = tr
     ∃ fl fh v', Laplace.encode value fs decay = .ok (fl, fh, v') ∧
       (Code.laplace value fs decay).encOps = .ok [.encodeBin fl fh 15] ∧ (Op.encodeBin fl fh 15).Legal ∧
       ∀ fm, fl ≤ fm → fm < fh → Laplace.decode fm fs decay = .ok (v', fl, fh) := by
-  obtain ⟨fl, fh, v', h1, h2, h3, h4, _⟩ := OpusProps.C17.laplace_decode_encode fs decay h value
+  obtain ⟨fl, fh, v', h1, h2, h3, h4⟩ := C17.laplace_decode_encode fs decay h value
   refine ⟨fl, fh, v', h1, ?_, ⟨h2, by simpa using h3, by decide, by decide⟩, h4⟩
   simp only [Code.encOps, h1]
   rfl
@@ -65,9 +114,9 @@ theorem pulses_code (y : List Int) (k : Nat) (h : (Code.pulses y k).Ok) :
       decodePulsesFt Utab y.length k = .ok (V y.length k) ∧
       cwrsi Utab y.length k i = .ok (y, sumSq y) := by
   obtain ⟨hn, hs, b, hr⟩ := h
-  obtain ⟨i, h1, h2, h3, h4⟩ := OpusProps.C17.icwrs_table y.length k b y hr hn rfl hs
-  obtain ⟨hk, _, _⟩ := OpusProps.C17.cache_reachable_fits y.length k b hr
-  have hft := (OpusProps.C17.cwrsi_table y.length k b i hr hn h2).1
+  obtain ⟨i, h1, h2, h3, h4⟩ := C17.icwrs_table y.length k b y hr hn rfl hs
+  obtain ⟨hk, _, _⟩ := C17.cache_reachable_fits y.length k b hr
+  have hft := C17.decodePulsesFt_table y.length k b hr
   refine ⟨i, ?_, ⟨V_ge_two _ _ hn hk, by omega, h2⟩, hft, h4⟩
   simp only [Code.encOps, h1]
   rfl
